@@ -214,7 +214,8 @@ theorem dss_tables_match_source :
   decide
 theorem weight_tables_match_source :
     Gen.targetSize = Tables.targetSize ∧ Gen.weight = Tables.weight ∧ Gen.weightSum = Tables.weightSum ∧
-    Gen.selectPred = Tables.selectPred ∧ Gen.pushBackOverloads = Tables.pushBackOverloads := by decide
+    Gen.selectPred = Tables.selectPred ∧ Gen.pushBackOverloads = Tables.pushBackOverloads ∧
+    Gen.cloneSchemaSets = Tables.cloneSchemaSets := by decide
 theorem protocol_tables_match_source :
     Gen.searchRun = Tables.searchRun ∧ Gen.evolutionRun = Tables.evolutionRun ∧
     Gen.installs = Tables.installs := by decide
@@ -225,56 +226,84 @@ theorem protocol_tables_match_source :
     run 0 ends without fault in the model's sets, consumes one draw per swap and clears the evaluator iff
     it was given one. -/
 theorem holdout_program_is_model {α} (ops : ElemOps α) (env : Env) (s : Sets α) (rng clT clV : Nat)
-    (hp : env.perc < 100) (hn : 1 ≤ s.tr.length) (hsz : s.tr.length * 100 < 2 ^ 64) :
-    ∃ loc, runFn ops Tables.prog env 1 .holdoutInit [("run", 0)] none (M.enter s rng clT clV) =
+    (sch : Nat × Nat) (hp : env.perc < 100) (hn : 1 ≤ s.tr.length) (hsz : s.tr.length * 100 < 2 ^ 64) :
+    ∃ loc, runFn ops Tables.prog env 1 .holdoutInit [("run", 0)] none (M.enter s rng clT clV sch) =
       some ⟨(holdoutInitR (drawOf env rng s.tr.length) env.perc 0 env.hasEvaT s).st.tr,
             (holdoutInitR (drawOf env rng s.tr.length) env.perc 0 env.hasEvaT s).st.va, loc,
             rng + (s.tr.length - skipOf s.tr.length env.perc),
-            clT + (holdoutInitR (drawOf env rng s.tr.length) env.perc 0 env.hasEvaT s).clears, clV, none⟩ := by
-  obtain ⟨loc, h⟩ := holdout_bridge0 ops env s rng clT clV hp hn hsz
+            clT + (holdoutInitR (drawOf env rng s.tr.length) env.perc 0 env.hasEvaT s).clears, clV, none,
+            (sch.1, sch.1)⟩ := by
+  obtain ⟨loc, h⟩ := holdout_bridge0 ops env s rng clT clV sch hp hn hsz
   refine ⟨loc, ?_⟩
   rw [h]
   cases env.hasEvaT <;> simp [holdoutInitR]
 
 /-- … and for later runs it returns at once, touching nothing. -/
 theorem holdout_program_later_runs {α} (ops : ElemOps α) (env : Env) (run : Nat) (s : Sets α)
-    (rng clT clV : Nat) (hrun : 0 < run) :
-    ∃ loc, runFn ops Tables.prog env 1 .holdoutInit [("run", run)] none (M.enter s rng clT clV) =
-      some ⟨s.tr, s.va, loc, rng, clT, clV, some none⟩ :=
-  holdout_bridge_later ops env run s rng clT clV hrun
+    (rng clT clV : Nat) (sch : Nat × Nat) (hrun : 0 < run) :
+    ∃ loc, runFn ops Tables.prog env 1 .holdoutInit [("run", run)] none (M.enter s rng clT clV sch) =
+      some ⟨s.tr, s.va, loc, rng, clT, clV, some none, sch⟩ :=
+  holdout_bridge_later ops env run s rng clT clV sch hrun
 
 /-- The extracted programs of `dss::init`, `dss::shake`, `dss::close` (with `shake_impl`,
     `move_to_validation`, `reset_age_difficulty`, `clear_evaluators` as callees) run without fault and
     compute `dssInit`, `dssShake`, `dssClose`, for every partitioner, target size with `ts n ≤ n`, coin,
     contents and counters. -/
-theorem dss_programs_are_model (env : Env) (s : St) (rng clT clV : Nat)
+theorem dss_programs_are_model (env : Env) (s : St) (rng clT clV : Nat) (sch : Nat × Nat)
     (hts : env.ts (s.va.length + s.tr.length) ≤ s.va.length + s.tr.length) :
-    (∀ run, ∃ loc, runFn exOps Tables.prog env 3 .dssInit [("run", run)] none (M.enter s rng clT clV) =
+    (∀ run, ∃ loc sch', runFn exOps Tables.prog env 3 .dssInit [("run", run)] none (M.enter s rng clT clV sch) =
       some ⟨(dssInit env.P env.ts env.sel s).st.tr, (dssInit env.P env.ts env.sel s).st.va, loc, rng,
-            clT + (dssInit env.P env.ts env.sel s).clears, clV + (dssInit env.P env.ts env.sel s).clears, none⟩) ∧
-    (∀ run, ∃ loc, runFn exOps Tables.prog env 2 .dssClose [("run", run)] none (M.enter s rng clT clV) =
+            clT + (dssInit env.P env.ts env.sel s).clears, clV + (dssInit env.P env.ts env.sel s).clears, none,
+            sch'⟩) ∧
+    (∀ run, ∃ loc sch', runFn exOps Tables.prog env 2 .dssClose [("run", run)] none (M.enter s rng clT clV sch) =
       some ⟨(dssClose s).st.tr, (dssClose s).st.va, loc, rng, clT + (dssClose s).clears,
-            clV + (dssClose s).clears, none⟩) ∧
-    (∀ g, 0 < env.gap → ∃ loc,
-      runFn exOps Tables.prog env 3 .dssShake [("generation", g)] none (M.enter s rng clT clV) =
+            clV + (dssClose s).clears, none, sch'⟩) ∧
+    (∀ g, 0 < env.gap → ∃ loc sch',
+      runFn exOps Tables.prog env 3 .dssShake [("generation", g)] none (M.enter s rng clT clV sch) =
       some ⟨(dssShake env.P env.ts env.gap g env.sel s).st.tr, (dssShake env.P env.ts env.gap g env.sel s).st.va,
             loc, rng, clT + (dssShake env.P env.ts env.gap g env.sel s).clears,
             clV + (dssShake env.P env.ts env.gap g env.sel s).clears,
-            some (some (dssShake env.P env.ts env.gap g env.sel s).ret)⟩) := by
-  refine ⟨fun run => dssInit_bridge env run s rng clT clV hts,
-          fun run => dssClose_bridge env run s rng clT clV, ?_⟩
+            some (some (dssShake env.P env.ts env.gap g env.sel s).ret), sch'⟩) := by
+  refine ⟨fun run => dssInit_bridge env run s rng clT clV sch hts,
+          fun run => dssClose_bridge env run s rng clT clV sch, ?_⟩
   intro g hgap
   by_cases hskip : g = 0 ∨ g % env.gap ≠ 0
-  · obtain ⟨loc, h⟩ := dssShake_bridge_skip env g s rng clT clV
+  · obtain ⟨loc, h⟩ := dssShake_bridge_skip env g s rng clT clV sch
       (hskip.elim Or.inl (fun h => Or.inr ⟨hgap, h⟩))
-    exact ⟨loc, by rw [h]; simp [dssShake, hskip]⟩
+    exact ⟨loc, sch, by rw [h]; simp [dssShake, hskip]⟩
   · have hg : g ≠ 0 := fun h => hskip (Or.inl h)
     have hd : g % env.gap = 0 := by
       rcases Nat.eq_zero_or_pos (g % env.gap) with h | h
       · exact h
       · exact (hskip (Or.inr (by omega))).elim
-    obtain ⟨loc, h⟩ := dssShake_bridge_reshuffle env g s rng clT clV hg hgap hd hts
-    exact ⟨loc, by rw [h]; simp [dssShake, hskip]⟩
+    obtain ⟨loc, sch', h⟩ := dssShake_bridge_reshuffle env g s rng clT clV sch hg hgap hd hts
+    exact ⟨loc, sch', by rw [h]; simp [dssShake, hskip]⟩
+
+/-- **`dataframe::clone_schema` moves no example.**  The statement `d.clone_schema(s)` of the extracted
+    programs (whose body – `columns = other.columns; classes_map_ = other.classes_map_`, nothing else – is
+    extracted and compared by `weight_tables_match_source`) leaves both example lists, hence the example
+    multisets of both frames, and every counter untouched; `validation_.clone_schema(training_)` gives the
+    validation frame the training frame's metadata. -/
+theorem clone_schema_moves_nothing {α} (ops : ElemOps α) (cf : CallFn α) (env : Env) (arg : Option Cont)
+    (d s : Cont) (m m' : M α) (h : exec0 ops cf env arg (.cloneSchema d s) m = some m') :
+    m'.tr = m.tr ∧ m'.va = m.va ∧ (m'.tr ++ m'.va).Perm (m.tr ++ m.va) ∧ m'.clT = m.clT ∧ m'.clV = m.clV ∧
+    m'.rng = m.rng := by
+  obtain ⟨h1, h2, _, h4, h5, h6, _⟩ := cloneSchema_frames ops cf env arg d s m m' h
+  exact ⟨h1, h2, by rw [h1, h2], h5, h6, h4⟩
+
+theorem clone_schema_copies_training_schema {α} (ops : ElemOps α) (cf : CallFn α) (env : Env)
+    (arg : Option Cont) (m : M α) :
+    exec0 ops cf env arg (.cloneSchema .va .tr) m = some { m with sch := (m.sch.1, m.sch.1) } :=
+  cloneSchema_va_tr ops cf env arg m
+
+/-- `move_to_validation` gives an empty validation frame the training frame's schema before it receives
+    the examples (and leaves the schema alone otherwise); the examples end up as in the model. -/
+theorem move_to_validation_program (env : Env) (k : Nat) (m : M Ex) :
+    runFn exOps Tables.prog env (k + 1) .moveToValidation [] none m =
+      some { m with tr := (moveToValidation ⟨m.tr, m.va⟩).tr, va := (moveToValidation ⟨m.tr, m.va⟩).va,
+                    loc := [], ret := none,
+                    sch := if m.va.isEmpty && !m.tr.isEmpty then (m.sch.1, m.sch.1) else m.sch } :=
+  run_move env k m
 
 /-- the extracted `double` chain of `target_size`, read over ℚ and truncated, is `targetSizeQ` -/
 theorem targetSize_table_is_model (n : Nat) :
@@ -406,8 +435,8 @@ example : (holdoutInit (fun i => i / 2) 30 0 (⟨[1, 2, 3, 4, 5, 6, 7], []⟩ : 
 -- hold-out program: hypotheses of `holdout_program_is_model` are satisfiable, and the machine really runs
 example : (7 : Nat) < 100 ∧ 1 ≤ [1, 2, 3].length ∧ [1, 2, 3].length * 100 < 2 ^ 64 := by decide
 example : (runFn (idOps Nat) Tables.prog ⟨30, 1, true, fun i => i * 7 + 3, fun _ => false, fun n => n / 2, stablePartition⟩
-    1 .holdoutInit [("run", 0)] none (M.enter ⟨[1, 2, 3, 4, 5, 6, 7], []⟩ 0 0 0)).map
-      (fun m => (m.tr, m.va, m.rng, m.clT)) = some ([1, 2, 6, 7], [3, 5, 4], 3, 1) := by decide
+    1 .holdoutInit [("run", 0)] none (M.enter ⟨[1, 2, 3, 4, 5, 6, 7], []⟩ 0 0 0 (5, 9))).map
+      (fun m => (m.tr, m.va, m.rng, m.clT, m.sch)) = some ([1, 2, 6, 7], [3, 5, 4], 3, 1, (5, 5)) := by decide
 -- DSS in search: a configuration meeting the hypotheses of `dss_in_search`
 example : (⟨.dss, 0, 2, stablePartition, fun n => n / 2⟩ : Cfg).strat = .dss ∧ TsOK (fun n => n / 2) :=
   ⟨rfl, by intro n hn; simp only; omega⟩
